@@ -15,6 +15,12 @@ Supported Rust subset (anything else in a translated fragment is a translation e
   expressions  literals (hex/dec, `_`, type suffix), variables, *x, self.f, a[i],
                .wrapping_add(e) .wrapping_sub(e) .rotate_left(n), u32::from(e),
                u32::from_le_bytes([e,e,e,e]), e << n, e ^ e, e == e, (e), e as u32
+ARC4 / control-flow extension (arc4.rs KSA + PRGA, the per-byte loop bodies of both
+`apply_keystream`s, hashlittle's empty-input return and length conversion):
+  statements   let x = e;  x += e;  s.swap(i, j);  self.f();  (a `&mut self` helper, configured)
+  expressions  e || e, e > e, e >= e, e < e, e <= e, e + e, e - e, e % e, e * e, e as usize (u8 -> Nat),
+               e as u8 (Nat -> u8), a[i] on arrays (`getD`), x.len(), x.is_empty(), self.f() (effectful
+               helper returning a value), u32::try_from(x.len()).unwrap_or(u32::MAX)
 """
 import os, re, sys
 
@@ -85,12 +91,19 @@ class P:
     def at(self, val):
         return self.peek()[1] == val
 
-    # expr := eq
+    # expr := or ; or := cmp (|| cmp)* ; cmp := xor ((==|>|>=|<|<=) xor)*
     def expr(self):
-        l = self.xor()
-        while self.at("=="):
+        l = self.cmp()
+        while self.at("||"):
             self.eat()
-            l = ("bin", "==", l, self.xor())
+            l = ("bin", "||", l, self.cmp())
+        return l
+
+    def cmp(self):
+        l = self.xor()
+        while self.peek()[1] in ("==", ">", ">=", "<", "<="):
+            op = self.eat()[1]
+            l = ("bin", op, l, self.xor())
         return l
 
     def xor(self):
@@ -101,10 +114,24 @@ class P:
         return l
 
     def shift(self):
-        l = self.cast()
+        l = self.additive()
         while self.at("<<"):
             self.eat()
-            l = ("bin", "<<", l, self.cast())
+            l = ("bin", "<<", l, self.additive())
+        return l
+
+    def additive(self):
+        l = self.multiplicative()
+        while self.peek()[1] in ("+", "-"):
+            op = self.eat()[1]
+            l = ("bin", op, l, self.multiplicative())
+        return l
+
+    def multiplicative(self):
+        l = self.cast()
+        while self.peek()[1] in ("%", "*") and self.peek(1)[1] != "=":
+            op = self.eat()[1]
+            l = ("bin", op, l, self.cast())
         return l
 
     def cast(self):
@@ -304,8 +331,13 @@ def parse_block_text(text):
 class Emit:
     """env: index_mode[name] in {'getset','fn','pat'}; rename maps Rust names to Lean names."""
 
-    def __init__(self, index_mode, rename=None, calls=None):
+    def __init__(self, index_mode, rename=None, calls=None, selfcalls=None, lens=None):
         self.im, self.rn, self.calls = index_mode, rename or {}, calls or {}
+        # selfcalls[name] = (lean function, [state variables it updates], returns a value?)
+        self.selfcalls = selfcalls or {}
+        # lens[name] = Lean expression for `name.len()`
+        self.lens = lens or {}
+        self.pre, self.tmp = [], 0
 
     def name(self, e):
         if e[0] == "var":
@@ -314,6 +346,8 @@ class Emit:
             return self.name(e[1])
         if e[0] == "field" and e[2] == ("var", "self"):
             return self.rn.get("self." + e[1], e[1])
+        if e[0] == "field" and e[2][0] == "var" and (e[2][1] + "." + e[1]) in self.rn:
+            return self.rn[e[2][1] + "." + e[1]]
         raise TranslationError(f"not a place expression: {e}")
 
     def ex(self, e):
@@ -323,6 +357,10 @@ class Emit:
         if k in ("var", "deref", "ref", "field"):
             return self.name(e)
         if k == "as":
+            if e[1] == "usize":      # u8 -> usize
+                return f"({self.ex(e[2])}).toNat"
+            if e[1] == "u8":         # usize -> u8 (truncating)
+                return f"(BitVec.ofNat 8 {self.ex(e[2])})"
             if e[1] != "u32":
                 raise TranslationError(f"cast to {e[1]} unsupported")
             return self.ex(e[2])
@@ -333,11 +371,24 @@ class Emit:
                 return f"(get {base} {self.ex(e[2])})"
             if mode == "fn":
                 return f"({base} {self.ex(e[2])})"
+            if mode == "arr":
+                return f"({base}.getD {self.ex(e[2])} 0)"
             if mode == "pat":
                 if e[2][0] != "num":
                     raise TranslationError("pattern-indexed array needs literal index")
                 return f"{base}{e[2][1]}"
             raise TranslationError(f"indexing of {base} not configured")
+        if k == "method" and e[2] == ("var", "self") and e[1] in self.selfcalls:
+            lean_f, state, returns = self.selfcalls[e[1]]
+            if not returns:
+                raise TranslationError(f"self.{e[1]}() has no value")
+            t = f"r{self.tmp}"
+            self.tmp += 1
+            self.pre.append(f"let (({', '.join(state)}), {t}) := {lean_f} {' '.join(state)}")
+            return t
+        if k == "method" and e[1] in ("len", "is_empty") and e[2][0] == "var" and e[2][1] in self.lens:
+            n = self.lens[e[2][1]]
+            return n if e[1] == "len" else f"({n} = 0)"
         if k == "method":
             name, recv, args = e[1], self.ex(e[2]), e[3]
             if name == "wrapping_add":
@@ -357,7 +408,8 @@ class Emit:
                 return "(le32 " + " ".join(self.ex(x) for x in arr[1]) + ")"
             raise TranslationError(f"call {e[1]} unsupported in expression")
         if k == "bin":
-            op = {"<<": "<<<", "^": "^^^", "==": "="}[e[1]]
+            op = {"<<": "<<<", "^": "^^^", "==": "=", "||": "∨", ">": ">", ">=": "≥", "<": "<", "<=": "≤",
+                  "+": "+", "-": "-", "%": "%", "*": "*"}[e[1]]
             return f"({self.ex(e[2])} {op} {self.ex(e[3])})"
         raise TranslationError(f"expression {k} unsupported")
 
@@ -375,6 +427,14 @@ class Emit:
                         n = self.name(a)
                         if n not in out:
                             out.append(n)
+            elif s[0] == "expr" and s[1][0] == "method" and s[1][2] == ("var", "self") and s[1][1] in self.selfcalls:
+                for n in self.selfcalls[s[1][1]][1]:
+                    if n not in out:
+                        out.append(n)
+            elif s[0] == "expr" and s[1][0] == "method" and s[1][1] == "swap":
+                n = self.name(s[1][2])
+                if n not in out:
+                    out.append(n)
             elif s[0] in ("if",):
                 for n in self.assigned(s[2]):
                     if n not in out:
@@ -388,7 +448,14 @@ class Emit:
             k = s[0]
             if k == "assign":
                 op, lhs, rhs = s[1], s[2], self.ex(s[3])
-                if lhs[0] == "index":
+                lines += [pad + l for l in self.pre]
+                self.pre = []
+                if lhs[0] == "index" and self.im.get(self.name(lhs[1])) == "arr":
+                    base = self.name(lhs[1])
+                    if op != "=":
+                        raise TranslationError(f"operator {op} on array element unsupported")
+                    lines.append(f"{pad}let {base} := {base}.setIfInBounds {self.ex(lhs[2])} {rhs}")
+                elif lhs[0] == "index":
                     base = self.name(lhs[1])
                     if self.im.get(base) != "getset":
                         raise TranslationError(f"assignment into {base}[..] not configured")
@@ -405,8 +472,29 @@ class Emit:
                         lines.append(f"{pad}let {n} := {rhs}")
                     elif op == "^=":
                         lines.append(f"{pad}let {n} := ({n} ^^^ {rhs})")
+                    elif op == "+=":
+                        lines.append(f"{pad}let {n} := ({n} + {rhs})")
                     else:
                         raise TranslationError(f"operator {op} unsupported")
+            elif k == "let":
+                rhs = self.ex(s[2])
+                lines += [pad + l for l in self.pre]
+                self.pre = []
+                lines.append(f"{pad}let {s[1]} := {rhs}")
+            elif k == "expr" and s[1][0] == "method" and s[1][1] == "swap" and len(s[1][3]) == 2:
+                base = self.name(s[1][2])
+                if self.im.get(base) != "arr":
+                    raise TranslationError(f".swap on {base} not configured")
+                a, b = self.ex(s[1][3][0]), self.ex(s[1][3][1])
+                lines += [pad + l for l in self.pre]
+                self.pre = []
+                lines.append(f"{pad}let {base} := slice_swap {base} {a} {b}")
+            elif k == "expr" and s[1][0] == "method" and s[1][2] == ("var", "self") and s[1][1] in self.selfcalls:
+                lean_f, state, returns = self.selfcalls[s[1][1]]
+                if returns or s[1][3]:
+                    raise TranslationError(f"self.{s[1][1]}(…) as a statement: unsupported shape")
+                tup = state[0] if len(state) == 1 else "(" + ", ".join(state) + ")"
+                lines.append(f"{pad}let {tup} := {lean_f} {' '.join(state)}")
             elif k == "expr" and s[1][0] == "call":
                 fname, args = s[1][1], s[1][2]
                 lean_f = self.calls.get(fname)
@@ -441,6 +529,7 @@ def translate():
     w("-/")
     w("import Cascette.Model.Salsa20")
     w("import Cascette.Model.Jenkins")
+    w("import Cascette.Model.Arc4")
     w("namespace Cascette.Generated")
     w("open Cascette")
     w("open Cascette.Spec.Salsa20 (S)")
@@ -603,8 +692,230 @@ def translate():
             ok = after[1:] == [("assign", "=", ("deref", ("var", "pc")), ("var", "c")), ("assign", "=", ("deref", ("var", "pb")), ("var", "b"))]
             w(f"def hashlittle2_outputs_pc_c_pb_b : Bool := {'true' if ok else 'false'}")
         w("")
+    translate_ext(w, out, salsa, jenk)
     w("end Cascette.Generated")
     return "\n".join(out) + "\n"
+
+
+def block_after(text, start):
+    """(body text, index after the closing brace) of the `{…}` that opens at/after `start`."""
+    i = text.index("{", start)
+    depth, j = 0, i
+    while j < len(text):
+        if text[j] == "{":
+            depth += 1
+        elif text[j] == "}":
+            depth -= 1
+            if depth == 0:
+                return text[i + 1:j], j + 1
+        j += 1
+    raise TranslationError("unbalanced braces")
+
+
+def strip_comments(t):
+    return re.sub(r"//[^\n]*", "", t)
+
+
+def norm(t):
+    return re.sub(r"\s+", "", strip_comments(t))
+
+
+def in_order(text, pats):
+    """every regex occurs exactly once and in the given order."""
+    pos = -1
+    for p in pats:
+        ms = list(re.finditer(p, text))
+        if len(ms) != 1 or ms[0].start() <= pos:
+            return False
+        pos = ms[0].start()
+    return True
+
+
+def translate_ext(w, out, salsa, jenk):
+    """ARC4 (KSA, PRGA, apply_keystream), Salsa20 apply_keystream loop body, hashlittle control flow."""
+    arc4 = open(os.path.join(REPO, "crates/cascette-crypto/src/arc4.rs")).read()
+    arc4 = arc4.split("#[cfg(test)]")[0]
+    w("/-! ## extension: ARC4, per-byte loops, hashlittle control flow -/")
+    w("set_option linter.unusedVariables false")
+    w("")
+    w("/-- the translator's reading of `<[u8]>::swap(a, b)` on an array (reads then two writes). -/")
+    w("def slice_swap (s : Array Byte) (a b : Nat) : Array Byte :=")
+    w("  let x := s.getD a 0")
+    w("  let y := s.getD b 0")
+    w("  (s.setIfInBounds a y).setIfInBounds b x")
+    w("")
+    w("/-- the translator's reading of `u32::try_from(n: usize)`. -/")
+    w("def u32_try_from (n : Nat) : Option W32 := if n < 2 ^ 32 then some (BitVec.ofNat 32 n) else none")
+    w("")
+
+    # --- Arc4Cipher::new
+    nw = strip_comments(fn_body(arc4, "new"))
+    m = re.search(r"if\s+(.*?)\s*\{\s*return\s+Err\(\s*Arc4Error::InvalidKeyLength\(", nw, re.S)
+    if not m:
+        raise TranslationError("Arc4Cipher::new: key-length guard `if … { return Err(Arc4Error::InvalidKeyLength(…` not found")
+    p = P(lex(m.group(1)))
+    cond = p.expr()
+    if p.peek()[0] != "eof":
+        raise TranslationError("Arc4Cipher::new: cannot parse the key-length guard")
+    em = Emit({}, lens={"key": "len"})
+    w("/-- the guard of `Arc4Cipher::new` (`len` = `key.len()`): true = `Err(InvalidKeyLength)` -/")
+    w(f"def arc4_key_rejected (len : Nat) : Prop := {em.ex(cond)}")
+    w("instance (len : Nat) : Decidable (arc4_key_rejected len) := by unfold arc4_key_rejected; exact inferInstance")
+    w("")
+    m = re.search(r"Self\s*\{\s*s:\s*\[(\d+);\s*(\d+)\],\s*i:\s*(\d+),\s*j:\s*(\d+),?\s*\}", nw)
+    if not m:
+        raise TranslationError("Arc4Cipher::new: `Self { s: [v; n], i: a, j: b }` not found")
+    w("/-- `Self { s: [v; n], i: …, j: … }` -/")
+    w(f"def arc4_s_fill : Byte := {m.group(1)}")
+    w(f"def arc4_s_len : Nat := {m.group(2)}")
+    w(f"def arc4_i0 : Byte := {m.group(3)}")
+    w(f"def arc4_j0 : Byte := {m.group(4)}")
+    w("")
+    loops = [(mm, ) + block_after(nw, mm.end() - 1) for mm in re.finditer(r"for\s+(\w+)\s+in\s+(\d+)\.\.(\d+)\s*\{", nw)]
+    if len(loops) != 2:
+        raise TranslationError(f"Arc4Cipher::new: expected two `for i in a..b` loops, found {len(loops)}")
+    (m1, body1, _), (m2, body2, _) = loops
+    if m1.group(1) != "i" or m2.group(1) != "i":
+        raise TranslationError("Arc4Cipher::new: loop variable must be `i`")
+    em = Emit({"s": "arr", "key": "arr"}, rename={"cipher.s": "s"}, lens={"key": "key.size"})
+    w("/-- body of the S-box initialisation loop of `Arc4Cipher::new` -/")
+    w("def arc4_init_body (s : Array Byte) (i : Nat) : Array Byte :=")
+    out.extend(em.stmts(parse_block_text(body1), 2))
+    w("  s")
+    w(f"def arc4_init_lo : Nat := {m1.group(2)}")
+    w(f"def arc4_init_hi : Nat := {m1.group(3)}")
+    w("")
+    mj = re.search(r"let\s+mut\s+j\s*=\s*(\d+)(?:_?u8)?\s*;", nw)
+    if not mj:
+        raise TranslationError("Arc4Cipher::new: `let mut j = <literal>u8;` not found")
+    w("/-- body of the key-scheduling loop of `Arc4Cipher::new` -/")
+    w("def arc4_ksa_body (key : Array Byte) (s : Array Byte) (i : Nat) (j : Byte) : Array Byte × Byte :=")
+    out.extend(em.stmts(parse_block_text(body2), 2))
+    w("  (s, j)")
+    w(f"def arc4_ksa_lo : Nat := {m2.group(2)}")
+    w(f"def arc4_ksa_hi : Nat := {m2.group(3)}")
+    w(f"def arc4_ksa_j0 : Byte := {mj.group(1)}")
+    flow = in_order(nw, [r"return\s+Err\(", r"let\s+mut\s+cipher\s*=\s*Self\s*\{", r"for\s+i\s+in[^{]*\{\s*cipher\.s\[i\]\s*=",
+                         r"let\s+mut\s+j\s*=", r"for\s+i\s+in[^{]*\{\s*j\s*=", r"Ok\(cipher\)\s*$"])
+    w("/-- guard, `Self{…}`, init loop, `let mut j`, KSA loop, `Ok(cipher)` occur once each, in this order -/")
+    w(f"def arc4_new_flow_ok : Bool := {'true' if flow else 'false'}")
+    w("")
+
+    # --- next_keystream_byte
+    nk = parse_block_text(fn_body(arc4, "next_keystream_byte"))
+    if not nk or nk[-1][0] != "tailexpr":
+        raise TranslationError("next_keystream_byte: expected a final expression")
+    em = Emit({"s": "arr"})
+    w("/-- `Arc4Cipher::next_keystream_byte` on the fields `(s, i, j)`: new fields and the returned byte -/")
+    w("def arc4_next (s : Array Byte) (i j : Byte) : (Array Byte × Byte × Byte) × Byte :=")
+    out.extend(em.stmts(nk[:-1], 2))
+    w(f"  ((s, i, j), {em.ex(nk[-1][1])})")
+    w("")
+
+    # --- Arc4Cipher::apply_keystream: per-byte loop body
+    ak = strip_comments(fn_body(arc4, "apply_keystream"))
+    m = re.search(r"^\s*for\s+byte\s+in\s+data\s*\{", ak)
+    if not m:
+        raise TranslationError("Arc4Cipher::apply_keystream: expected `for byte in data { … }`")
+    body, end = block_after(ak, m.end() - 1)
+    if ak[end:].strip():
+        raise TranslationError("Arc4Cipher::apply_keystream: statements after the loop")
+    em = Emit({}, selfcalls={"next_keystream_byte": ("arc4_next", ["s", "i", "j"], True)})
+    w("/-- body of `for byte in data` in `Arc4Cipher::apply_keystream` -/")
+    w("def arc4_apply_body (s : Array Byte) (i j : Byte) (byte : Byte) : (Array Byte × Byte × Byte) × Byte :=")
+    out.extend(em.stmts(parse_block_text(body), 2))
+    w("  ((s, i, j), byte)")
+    enc = norm(fn_body(arc4, "encrypt")) == "data.iter().map(|&byte|byte^self.next_keystream_byte()).collect()"
+    dec = norm(fn_body(arc4, "decrypt")) == "self.encrypt(data)"
+    w("/-- `encrypt` is `data.iter().map(|&byte| byte ^ self.next_keystream_byte()).collect()` -/")
+    w(f"def arc4_encrypt_is_xor_map : Bool := {'true' if enc else 'false'}")
+    w(f"def arc4_decrypt_is_encrypt : Bool := {'true' if dec else 'false'}")
+    w("")
+
+    # --- Salsa20Cipher::apply_keystream: per-byte loop body
+    ak = strip_comments(fn_body(salsa, "apply_keystream"))
+    m = re.search(r"^\s*for\s+byte\s+in\s+data\.iter_mut\(\)\s*\{", ak)
+    if not m:
+        raise TranslationError("Salsa20Cipher::apply_keystream: expected `for byte in data.iter_mut() { … }`")
+    body, end = block_after(ak, m.end() - 1)
+    if ak[end:].strip():
+        raise TranslationError("Salsa20Cipher::apply_keystream: statements after the loop")
+    st = ["state", "keystream", "keystream_pos"]
+    em = Emit({"keystream": "arr"}, selfcalls={"generate_keystream": ("gen", st, False)})
+    w("/-- body of `for byte in data.iter_mut()` in `Salsa20Cipher::apply_keystream`;")
+    w("`gen` stands for `self.generate_keystream()` on the fields (tied separately by `generate_tie`) -/")
+    w("def salsa_apply_body (gen : S → Bytes → Nat → S × Bytes × Nat) (state : S) (keystream : Bytes)")
+    w("    (keystream_pos : Nat) (byte : Byte) : (S × Bytes × Nat) × Byte :=")
+    out.extend(em.stmts(parse_block_text(body), 2))
+    w("  ((state, keystream, keystream_pos), byte)")
+    w("")
+
+    # --- hashlittle / hashlittle2_impl: length conversion, empty-input return, statement order
+    for fname, lean in (("hashlittle", "hashlittle"), ("hashlittle2_impl", "hashlittle2")):
+        body = strip_comments(fn_body(jenk, fname))
+        init = parse_block_text(body[:body.index("if k.is_empty()")])
+        a0 = [s_ for s_ in init if s_[0] == "let" and s_[1] == "a"]
+        if len(a0) != 1:
+            raise TranslationError(f"{fname}: expected one `let mut a = …`")
+        w(f"/-- the length word of `{fname}` as a function of `n = <input>.len()` -/")
+        w(f"def {lean}_len (n : Nat) : W32 := {emit_len(find_len(a0[0][2]))}")
+        m = re.search(r"if\s+k\.is_empty\(\)\s*\{", body)
+        blk, _ = block_after(body, m.end() - 1)
+        st = parse_block_text(blk)
+        if not st or st[-1][0] != "return":
+            raise TranslationError(f"{fname}: the `if k.is_empty()` block must end in `return`")
+        em = Emit({})
+        if fname == "hashlittle":
+            if len(st) != 1 or st[0][1] is None:
+                raise TranslationError("hashlittle: expected `if k.is_empty() { return <expr>; }`")
+            w("/-- what `hashlittle` returns for empty input, from the initial registers -/")
+            w(f"def hashlittle_empty_return (a b c : W32) : W32 := {em.ex(st[0][1])}")
+            order = [r"let\s+mut\s+a\s*=", r"let\s+mut\s+b\s*=", r"let\s+mut\s+c\s*=", r"let\s+mut\s+k\s*=\s*data\s*;",
+                     r"if\s+k\.is_empty\(\)", r"while\s+k\.len\(\)\s*>", r"match\s+k\.len\(\)", r"final_mix\(&mut a, &mut b, &mut c\);", r"\bc\s*$"]
+        else:
+            if st[-1][1] is not None:
+                raise TranslationError("hashlittle2_impl: expected a bare `return;`")
+            w("/-- what `hashlittle2_impl` stores in `(*pc, *pb)` for empty input, from the initial registers -/")
+            w("def hashlittle2_empty_return (a b c pc pb : W32) : W32 × W32 :=")
+            out.extend(em.stmts(st[:-1], 2))
+            w("  (pc, pb)")
+            order = [r"let\s+mut\s+a\s*=", r"let\s+mut\s+b\s*=", r"let\s+mut\s+c\s*=", r"let\s+mut\s+k\s*=\s*key\s*;",
+                     r"if\s+k\.is_empty\(\)", r"while\s+k\.len\(\)\s*>", r"match\s+k\.len\(\)", r"final_mix\(&mut a, &mut b, &mut c\);", r"\*pc\s*=\s*c;\s*\*pb\s*=\s*b;\s*$"]
+        w("/-- initial registers, `k = <input>`, empty-input return, block loop, tail match, final_mix, result: once each, in this order -/")
+        w(f"def {lean}_flow_ok : Bool := {'true' if in_order(body.strip(), order) else 'false'}")
+        w("")
+
+
+def find_len(e):
+    """the sub-expression that converts `<x>.len()` to u32 inside an initial-value expression."""
+    if e[0] == "method" and e[1] == "unwrap_or":
+        return e
+    if e[0] == "as" and e[2][0] == "method" and e[2][1] == "len":
+        return e
+    if e[0] == "method":
+        for sub in [e[2]] + list(e[3]):
+            r = find_len(sub)
+            if r is not None:
+                return r
+    return None
+
+
+def emit_len(e):
+    if e is None:
+        raise TranslationError("no length conversion found in the initial value")
+    if e[0] == "as" and e[1] == "u32":
+        return "BitVec.ofNat 32 n"
+    if e[0] == "method" and e[1] == "unwrap_or":
+        inner, dflt = e[2], e[3][0]
+        if inner[0] == "call" and inner[1] == "u32::try_from" and inner[2][0][0] == "method" and inner[2][0][1] == "len":
+            if dflt == ("var", "u32::MAX"):
+                d = "0xffffffff"
+            elif dflt[0] == "num":
+                d = hex(dflt[1])
+            else:
+                raise TranslationError("unwrap_or default unsupported")
+            return f"(u32_try_from n).getD {d}"
+    raise TranslationError("length conversion unsupported")
 
 
 def emit_init(e):
@@ -617,6 +928,8 @@ def emit_init(e):
                 and e[3][0] == ("var", "u32::MAX")):
             return "len"
         raise TranslationError("length conversion is not u32::try_from(x.len()).unwrap_or(u32::MAX)")
+    if e[0] == "as" and e[1] == "u32" and e[2][0] == "method" and e[2][1] == "len":
+        return "len"
     if e[0] == "num":
         return hex(e[1])
     if e[0] == "var":
